@@ -715,6 +715,8 @@ use std::cell::RefCell;
 thread_local! { static LOG: RefCell<Vec<String>> = RefCell::new(Vec::new()); }
 pub fn log(s: String) { LOG.with(|l| l.borrow_mut().push(s)); }
 pub fn take() -> Vec<String> { LOG.with(|l| std::mem::take(&mut *l.borrow_mut())) }
+#[derive(Debug, PartialEq)] pub struct Wrap<T>(pub T);
+pub trait Marker {}
 '''
 
 
@@ -755,12 +757,29 @@ def gen_c09_program(seed, start, count):
             rty = ('&' if br else '') + B
             rarg = '' if (rhs_self and not br and not bl and rng.random() < 0.5) else f'<{rty}>'
             ctor_out = 'A(format!("[{}%s{}]", self.0, rhs.0)%s)' % (sym, ', std::marker::PhantomData' if generic else '')
-            base = f'#[derive_ex({", ".join(names)})]\nimpl{g} std::ops::{tr}{rarg} for {lty} {{ type Output = {A}; fn {f}(self, rhs: {rty}) -> {A} {{ log(format!("base {{}} {{}}", self.0, rhs.0)); {ctor_out} }} }}\n'
+            # the user's impl may be written with `Self`: nested in the Output type, as the right-hand side, in the where-clause
+            # (in the generated reference forms `Self` is another type, so every occurrence has to be expanded)
+            use_self = (not bl) and req == ['Op'] and rng.random() < 0.5
+            if use_self:
+                wrap_out = rng.random() < 0.6
+                outty = rng.choice(['Wrap<Self>', 'Wrap<Self>', 'Self']) if wrap_out else 'Self'
+                rty_s = rty.replace(A, 'Self') if rhs_self and rng.random() < 0.6 else rty
+                rarg_s = f'<{rty_s}>' if rarg or rty_s != rty else rarg
+                wh = rng.choice(['', ' where Wrap<Self>: Marker', ' where Self: Sized, Wrap<Self>: Marker', ' where Vec<Self>: Sized'])
+                marker = f'impl{g} Marker for Wrap<{A}> {{}}\n'
+                ret = f'Wrap({ctor_out})' if outty.startswith('Wrap') else ctor_out
+                acc = '.0.0' if outty.startswith('Wrap') else '.0'
+                base = (marker + f'#[derive_ex({", ".join(names)})]\nimpl{g} std::ops::{tr}{rarg_s} for {lty}{wh} {{ type Output = {outty}; '
+                        f'fn {f}(self, rhs: {rty_s}) -> {outty} {{ log(format!("base {{}} {{}}", self.0, rhs.0)); {ret} }} }}\n')
+            else:
+                acc = '.0'
+                base = f'#[derive_ex({", ".join(names)})]\nimpl{g} std::ops::{tr}{rarg} for {lty} {{ type Output = {A}; fn {f}(self, rhs: {rty}) -> {A} {{ log(format!("base {{}} {{}}", self.0, rhs.0)); {ctor_out} }} }}\n'
         body = f'pub mod {mod} {{ use super::*;\n{adef}{aclone}{bdef}{base} pub fn run() {{ let mut n = 0u32;\n'
 
         def check(expr_setup, expr, want_val, want_log, what, post=''):
+            ac = acc if not base_assign else '.0'
             return (f'  {{ {expr_setup} take(); let z = {expr}; let lg = take(); n += 1; let want = String::from("{want_val}"); let wl: Vec<String> = vec![{", ".join(chr(34) + w + chr(34) + ".to_string()" for w in want_log)}];\n'
-                    f'    if z.0 != want {{ println!("{mod} FAIL {what} value {{:?}} want {{:?}}", z.0, want); }} if lg != wl {{ println!("{mod} FAIL {what} calls {{:?}} want {{:?}}", lg, wl); }} {post} }}\n')
+                    f'    if z{ac} != want {{ println!("{mod} FAIL {what} value {{:?}} want {{:?}}", z{ac}, want); }} if lg != wl {{ println!("{mod} FAIL {what} calls {{:?}} want {{:?}}", lg, wl); }} {post} }}\n')
         setup = f'let a: {Ai} = {ctorA("a")}; let b: {Bi} = {ctorB("b")};'
         cb = 'cloneA' if rhs_self else 'cloneB'
         if base_assign:
